@@ -13,6 +13,9 @@ Clauses (one `Viol` constructor each):
   * `idleWait`  backend asked the poller to block although a connected user already had a complete command buffered
   * `overtaken` a user is served a second time while another user, who had a complete command at the top of an
                 iteration, still waits for his first service (only possible across iterations aborted by an error)
+  * `typeaheadDiscard`  the executed command is not the oldest pending input of a user whose backlog had reached the size
+                at which get_user_data discards the text buffer: the open finding C13-typeahead-discard, reported under
+                its own name (and the oracle resynchronises on the executed line)
   * `efun`      a command() call on a live object was not executed at once (command() is not turn-limited:
                 `ecmd` events never count for `twice`)
   * `outside`, `crash`, `malformed`  robustness of the trace itself
@@ -32,6 +35,7 @@ inductive Viol where
   | fifo (u : Nat) (text : List Char)
   | idleWait (n u : Nat)
   | overtaken (u v n : Nat)
+  | typeaheadDiscard (u : Nat) (text : List Char)
   | efun (target : Nat) (text : List Char)
   | outside (u : Nat)
   | crash (what : String)
@@ -58,6 +62,25 @@ def consume (charMode : Bool) (p text : List Char) : Option (List Char) :=
   let line := text ++ ['~']
   if line.isPrefixOf p then some (p.drop line.length)
   else if charMode && !text.isEmpty then stripRaw text p else none
+
+/-- size of the sent bytes once buffered in line mode (`~` becomes three bytes) -/
+def encLen (p : List Char) : Nat := p.length + 2 * p.count '~'
+
+/-- drop whole lines from the front of `p` up to and including the first line equal to `text`; `p` when there is none -/
+def resyncAux (text : List Char) : Nat → List Char → Option (List Char)
+  | 0, _ => none
+  | fuel + 1, p =>
+    let line := p.takeWhile (· != '~')
+    match p.dropWhile (· != '~') with
+    | [] => none
+    | _ :: rest => if line == text then some rest else resyncAux text fuel rest
+
+/-- what the oracle does with an executed command that is not the oldest pending input: when the backlog of the user
+    is large enough for get_user_data's discard rule (C13 open finding `C13-typeahead-discard`: pending text of
+    `roomShort` length is thrown away, complete commands included), resynchronise on the executed line; otherwise
+    keep the backlog -/
+def onMiss (p text : List Char) : List Char :=
+  if roomShort (encLen p) then (resyncAux text (p.length + 1) p).getD p else p
 
 /-- a complete command is waiting -/
 def complete (charMode : Bool) (p : List Char) : Bool :=
@@ -131,7 +154,9 @@ def fifoStep (s : FState) (e : Ev) : FState :=
   | .cmd u text =>
     match consume (s.us.get u).charMode (s.us.get u).pending text with
     | some p => { s with us := upd s.us u { pending := p, charMode := false } }
-    | none => { us := upd s.us u { s.us.get u with charMode := false }, bad := .fifo u text :: s.bad }
+    | none =>
+      { us := upd s.us u { pending := onMiss (s.us.get u).pending text, charMode := false },
+        bad := (if roomShort (encLen (s.us.get u).pending) then Viol.typeaheadDiscard u text else .fifo u text) :: s.bad }
   | _ => s
 
 def judgeFifo (trace : List Ev) : List Viol := (trace.foldl fifoStep {}).bad.reverse
@@ -175,8 +200,8 @@ def judgeStep (s : JState) (e : Ev) : JState :=
     | _, _ => s
   | .cmd u text =>
     let j := s.us.get u
-    { s with us := upd s.us u { j with pending := (consume j.charMode j.pending text).getD j.pending, served := true,
-                                         charMode := false } }
+    { s with us := upd s.us u { j with pending := (consume j.charMode j.pending text).getD (onMiss j.pending text),
+                                         served := true, charMode := false } }
   | .kick _ t true => { s with us := upd s.us t { s.us.get t with connected := false } }
   | .drop _ t true => { s with us := upd s.us t { s.us.get t with connected := false } }
   | .gc u true => { s with us := upd s.us u { s.us.get u with charMode := true } }
@@ -218,7 +243,8 @@ def obeginU (j : OU) : OU :=
 /-- `cmd u text` seen by the record of user `v`: `u` itself is served; everybody who waits remembers `u` -/
 def ocmdU (u : Nat) (text : List Char) (v : Nat) (j : OU) : OU :=
   if v == u then
-    { j with pending := (consume j.charMode j.pending text).getD j.pending, charMode := false, waiting := false, passed := [] }
+    { j with pending := (consume j.charMode j.pending text).getD (onMiss j.pending text), charMode := false,
+             waiting := false, passed := [] }
   else if j.waiting then { j with passed := u :: j.passed } else j
 
 /-- `end`: a completed iteration owes nothing any more -/
